@@ -33,8 +33,8 @@ def outcomeTok (t : String) : Option Outcome :=
   if t == "ok" then some .ok else if t == "notinvoked" then some .notInvoked
   else if t == "failbefore" then some .failBefore else if t == "failafter" then some .failAfter else none
 
-/-- the code version the harness talks about: 2 = current source; `cmd@0`, `cmd@1` select older ones -/
-def curLvl : Nat := 2
+/-- the code version the harness talks about: 3 = current source; `cmd@0`, `cmd@1` select older ones -/
+def curLvl : Nat := 3
 
 def splitLvl (t : String) : String × Nat :=
   match t.splitOn "@" with
